@@ -227,6 +227,14 @@ def rule_sample_counts(eng, rep, rule="C17-3.sample-count-is-1-on-replace-and-pl
                     rep.bad(rule, site, "%s|nsamples-increment" % m.fid, "`%s`: sample count must grow by exactly 1, and only where a sample is averaged in" % short(node))
             else:
                 v = node.value
+                # `n_old = self.nsamples[k]; ...; self.nsamples[k] = n_old + 1` is the increment written out
+                from .common import expand_locals
+                ve = expand_locals(eng.cfg(m), node, v)
+                tkey = ekey(node.targets[0])
+                if averaged and isinstance(ve, ast.BinOp) and isinstance(ve.op, ast.Add) and \
+                        ((ekey(ve.left) == tkey and const_value(ve.right) == 1) or (ekey(ve.right) == tkey and const_value(ve.left) == 1)):
+                    rep.ok(rule, site, "nsamples[k] = nsamples[k] + 1 (through a temporary) where the residual is averaged with one new sample")
+                    continue
                 lit = const_value(v) == 1 or (isinstance(v, ast.Call) and (ekey(v.func).endswith("append") or _is_append_helper(eng, v)) and len(v.args) > 1 and const_value(v.args[1]) == 1)
                 reloc = isinstance(v, ast.Subscript) and "nsamples" in ekey(v.value)
                 if writes_pts and lit:
@@ -368,7 +376,8 @@ def rule_running_mean(eng, rep, rule="C17-8.re-sampled-residual-is-the-arithmeti
             sl = tgt.slice
             idx = sl.elts[0] if isinstance(sl, ast.Tuple) and sl.elts else sl
             ikey = ekey(idx)
-            incs = [cfg.cfg_node(x) for x in eng.prog.own_nodes(m) if isinstance(x, ast.AugAssign) and _written_field(x.target, selfn) == "nsamples"]
+            incs = [cfg.cfg_node(x) for x in eng.prog.own_nodes(m) if (isinstance(x, ast.AugAssign) and _written_field(x.target, selfn) == "nsamples")
+                    or (isinstance(x, ast.Assign) and any(_written_field(t, selfn) == "nsamples" for t in x.targets))]
             n, OLD = sp.Symbol("n", positive=True), sp.Symbol("old", real=True)
             others = {}
             seen_old = [False]
